@@ -14,9 +14,11 @@ import (
 	"path/filepath"
 	"time"
 
+	"crawshaw.io/sqlite"
 	"filippo.io/mldsa"
 	"filippo.io/sunlight"
 	"filippo.io/sunlight/internal/ctlog"
+	"filippo.io/sunlight/internal/verifsim/core"
 	"filippo.io/sunlight/internal/verifsim/corpus"
 	ct "github.com/google/certificate-transparency-go"
 )
@@ -114,6 +116,7 @@ func (w *World) startLoad(in *Instance) {
 		}
 		in.log = l
 		in.logs = append(in.logs, l)
+		l.VerifCacheReadConn().SetTracer(&cacheTracer{w: w, in: in, inc: inc, l: l})
 		in.handler = l.Handler()
 		in.state = stRunning
 		n, h, t := l.VerifTree()
@@ -162,6 +165,7 @@ type Item struct {
 	Key     [32]byte // cache key computed independently
 	Parse   bool     // certificate parses (names tile line expected)
 	CN      string
+	corpusIdx int
 }
 
 // Submission is one call of addLeafToPool / add-chain for an item.
@@ -213,7 +217,7 @@ func independentCacheKey(e *ctlog.PendingLogEntry) [32]byte {
 // makeItem builds workload item k with the given shape.
 func (w *World) makeItem(k int, shape int) *Item {
 	c := corpus.Get()
-	it := &Item{ID: k}
+	it := &Item{ID: k, corpusIdx: k}
 	e := &ctlog.PendingLogEntry{}
 	switch shape % 6 {
 	case 0: // certificate, one issuer
@@ -341,3 +345,38 @@ func (w *World) cachePath(idx int) string {
 }
 
 var _ = sunlight.TileHeight
+
+// cacheTracer turns the end of every statement on the deduplication-cache read
+// connection into a seam -- but only when poolMu is not held. In sunlight the
+// lookup runs under poolMu, so nothing ever parks here; a change that moves the
+// lookup out of the critical section becomes schedulable against the sequencer.
+type cacheTracer struct {
+	w   *World
+	in  *Instance
+	inc int
+	l   *ctlog.Log
+}
+
+type cacheTask struct{ t *cacheTracer }
+
+func (t *cacheTracer) NewTask(name string) sqlite.TracerTask { return cacheTask{t} }
+func (t *cacheTracer) Push(name string)                      {}
+func (t *cacheTracer) Pop()                                  {}
+func (c cacheTask) StartRegion(string)                       {}
+func (c cacheTask) End()                                     {}
+func (c cacheTask) EndRegion() {
+	t := c.t
+	w := t.w
+	if w.auto || t.in.dead || t.in.inc != t.inc {
+		return
+	}
+	w.probeMu.Lock()
+	held := t.l.VerifPoolMuHeld() || t.l.VerifMutexHeld()
+	w.probeMu.Unlock()
+	if held {
+		return
+	}
+	w.sim.Probe("cache.lookup.outside-lock")
+	op := &core.Op{ID: w.sim.NewOpID(t.in.idx, t.inc, "cache", "lookup"), Inst: t.in.idx, Inc: t.inc, Kind: "cache", Key: "lookup", Payload: &pendingOp{}}
+	w.sim.Park(op)
+}
